@@ -1,5 +1,6 @@
 from __future__ import annotations
 import enum
+import re
 import typing
 import structlog
 from sympy.printing.c import C99CodePrinter
@@ -40,7 +41,21 @@ def get_formatter(format: Format) -> typing.Callable[[str], str]:
 
 
 def bool_to_int(expr: str) -> str:
-    return expr.replace("false", "0").replace("true", "1")
+    # whole words only: identifiers such as ``true_value`` must stay intact
+    return re.sub(r"\btrue\b", "1", re.sub(r"\bfalse\b", "0", expr))
+
+
+C_KEYWORDS = frozenset(
+    "auto break case char const continue default do double else enum extern float for goto if "
+    "inline int long register restrict return short signed sizeof static struct switch typedef "
+    "union unsigned void volatile while _Bool _Complex _Imaginary true false bool NULL".split()
+)
+# <math.h> names the C printer may emit: a model variable of that name would shadow the
+# function inside the generated functions (other library names are merely shadowed, which is fine)
+C_LIBRARY_NAMES = frozenset(
+    "acos asin atan atan2 ceil cos cosh exp exp2 expm1 fabs floor fmax fmin fmod log log10 log1p "
+    "log2 pow sin sinh sqrt tan tanh M_PI M_E INFINITY NAN".split()
+)
 
 
 class GotranCCodePrinter(C99CodePrinter):
@@ -81,6 +96,20 @@ class GotranCCodePrinter(C99CodePrinter):
 
 class CCodeGenerator(CodeGenerator):
     variable_prefix = "const double "
+    reserved_names = CodeGenerator.reserved_names | C_KEYWORDS | C_LIBRARY_NAMES
+
+    def _is_reserved(self, name: str) -> bool:
+        return name in {
+            "rhs",
+            "monitor_values",
+            "missing_values",
+            "init_state_values",
+            "init_parameter_values",
+            "state_index",
+            "parameter_index",
+            "monitor_index",
+            "missing_index",
+        }
 
     def __init__(
         self, ode: ODE, format: Format = Format.clang_format, remove_unused: bool = False
